@@ -8,7 +8,10 @@ R3 the five traversals (insert, lookup, exact lookup, remove, validation descent
    zero, level + 1 handed down
 R4 result discipline of pfx_table_validate_r: VALID only after a match, NOT FOUND only when no covering node was
    found, INVALID only after a covering node and a failed continuation; reason bookkeeping per covering node
-Not decided: that the trie has the right shape after arbitrary insert/remove histories; bit arithmetic of get_bits.
+R7 bit extraction on the two argument patterns the library uses (first bit 0 / count 1): word table of the IPv6 variant, mask table of
+   the 32-bit primitive, pass-through of the IPv4 variant and the family dispatch
+Not decided: that the trie has the right shape after arbitrary insert/remove histories; bit extraction for other argument patterns
+(a range that starts inside one word and ends in another is wrong today, but no caller asks for one).
 """
 from engine import es, flow, vf
 from engine.pdb import AnalysisBroken
@@ -437,12 +440,115 @@ def r4(ctx, retsets):
               "loop over all elements: %s, fields written: %s" % (okl, sorted(f.split(".")[1] for f in fields if f)), key="C01.R4:node2pfx_record")
 
 
+def r7(ctx):
+    """bit extraction, on the argument patterns the library uses (R2/R3 fix them: (x, 0, len) for the covering test and (x, level, 1)
+    for the child choice).  The specification is the definition: bits [from, from + n) of the address, counted from the most
+    significant bit, everything else zero."""
+    pdb = ctx.pdb
+    ctx.rule("C01.R7", "bit extraction on the library's two argument patterns (first bit 0 with any count; any first bit with count 1): "
+             "lrtr_ipv6_get_bits takes from each 32-bit word exactly the overlap of [from, from+n) with that word, lrtr_get_bits's mask is "
+             "exactly bits [from, from+n) of the word, the IPv4 variant and the family dispatch pass the arguments through")
+    # all call sites use one of the two patterns
+    pats = []
+    for c in pdb.callers("lrtr_ip_addr_get_bits"):
+        a = [vf.expr(c.fn, x) for x in c.args[-2:]]
+        pats.append((c, a[0] == ("c", 0) or a[1] == ("c", 1)))
+    ctx.check(bool(pats) and all(ok for c, ok in pats), "C01.R7", "call-patterns", ([c for c, ok in pats if not ok] or [pats[0][0]])[0].loc(),
+              "%d call sites of lrtr_ip_addr_get_bits, each with first bit 0 or count 1" % len(pats), key="C01.R7:patterns")
+    cells6 = [(0, q) for q in range(0, 129)] + [(f, 1) for f in range(1, 128)]
+    f6 = pdb.fn("lrtr_ipv6_get_bits")
+    ctx.touch(f6)
+    bad = []
+    for fb, q in cells6:
+        calls = []
+
+        def cl(inst, E, st):
+            if inst.op == "call" and inst.callee == "lrtr_get_bits":
+                e = vf.expr(f6, inst.args[0])
+                w = e[1][2][1] if e[0] == "load" and e[1][0] == "idx" and e[1][1] == ("fld", ("arg", 0), "lrtr_ipv6_addr.addr") and e[1][2][0] == "c" else None
+                dst = None
+                for u in f6.uses(inst.ref):
+                    if u.op == "store":
+                        de = vf.expr(f6, u["ptr"])
+                        if de[0] == "idx" and de[2][0] == "c":
+                            dst = de[2][1]
+                calls.append((w, dst, flow.av_single(E.val(inst.args[1])), flow.av_single(E.val(inst.args[2]))))
+            return None
+        outs, _f = es.count_effects(f6, pdb, cl, None, cell={1: fb, 2: q})
+        got = sorted((w, fr, n) for (w, dst, fr, n) in calls if n != 0)
+        want = []
+        for i in range(4):
+            lo, hi = max(fb, 32 * i), min(fb + q, 32 * i + 32)
+            if hi > lo:
+                want.append((i, lo - 32 * i, hi - lo))
+        misplaced = [c for c in calls if c[3] != 0 and c[0] != c[1]]
+        if got != want or misplaced or len(outs) != 1:
+            bad.append((fb, q, got, want))
+    ctx.check(not bad, "C01.R7", "ipv6_get_bits:word-table", "%s:%d" % (f6.relfile, f6.line),
+              ("first bit %d, count %d: words taken %s, definition %s (%d of %d cells wrong)" % (bad[0] + (len(bad), len(cells6)))) if bad else
+              "%d cells: (word, first bit in the word, count) handed to lrtr_get_bits equals the overlap of the range with each word; result word i from source word i" % len(cells6),
+              key="C01.R7:ipv6:words")
+    # the zeroed rest: the result object is cleared before the words are filled in
+    ms = [c for c in f6.calls() if (c.callee or "").startswith("llvm.memset") and vf.expr(f6, c.args[1]) == ("c", 0) and vf.expr(f6, c.args[2]) == ("c", 16)]
+    ctx.check(bool(ms) and all(f6.dom(ms[0], c) for c in f6.calls("lrtr_get_bits")), "C01.R7", "ipv6_get_bits:rest-is-zero", "%s:%d" % (f6.relfile, f6.line),
+              "the 16-byte result is zeroed before any word is extracted", key="C01.R7:ipv6:zero")
+    # the 32-bit primitive
+    g = pdb.fn("lrtr_get_bits")
+    ctx.touch(g)
+    cells = [(0, n) for n in range(0, 33)] + [(f, 1) for f in range(1, 32)]
+    badm = []
+    for fr, n in cells:
+        masks = []
+
+        def clm(inst, E, st):
+            if inst.op == "and":
+                for x, y in ((inst["a"], inst["b"]), (inst["b"], inst["a"])):
+                    if vf.expr(g, y) == ("arg", 0):
+                        masks.append(flow.av_single(E.val(x)))
+            return None
+        outs, _f = es.count_effects(g, pdb, clm, None, cell={1: fr, 2: n})
+        want = ((0xFFFFFFFF << (32 - n)) & 0xFFFFFFFF) >> fr if n else 0
+        if n == 0:
+            ok = len(outs) == 1 and flow.av_single(outs[0]["ret"]) == 0 and not masks
+        else:
+            ok = len(outs) == 1 and len(masks) == 1 and masks[0] is not None and (masks[0] & 0xFFFFFFFF) == want
+        if not ok:
+            badm.append((fr, n, [hex(m & 0xFFFFFFFF) if m is not None else None for m in masks], hex(want)))
+    ctx.check(not badm, "C01.R7", "get_bits:mask-table", "%s:%d" % (g.relfile, g.line),
+              ("from %d, count %d: mask %s, definition %s (%d of %d cells wrong)" % (badm[0] + (len(badm), len(cells)))) if badm else
+              "%d cells: result = word & mask with mask = bits [from, from+count) counted from the top; count 0 gives 0" % len(cells), key="C01.R7:get_bits:mask")
+    # IPv4 variant and family dispatch
+    f4 = pdb.fn("lrtr_ipv4_get_bits")
+    c4 = f4.calls("lrtr_get_bits")
+    ctx.check(len(c4) == 1 and [vf.expr(f4, a) for a in c4[0].args] == [("load", ("fld", ("arg", 0), "lrtr_ipv4_addr.addr")), ("arg", 1), ("arg", 2)],
+              "C01.R7", "ipv4_get_bits:pass-through", "%s:%d" % (f4.relfile, f4.line), "lrtr_get_bits(val->addr, from, count)", key="C01.R7:ipv4")
+    fd = pdb.fn("lrtr_ip_addr_get_bits")
+    ctx.touch(fd)
+    v6 = pdb.enum_value("LRTR_IPV6")
+    for ver in (pdb.enum_value("LRTR_IPV4"), v6):
+        def values(pe, ver=ver):
+            return ver if vf.last_field(pe) == "lrtr_ip_addr.ver" and vf.root_of(pe) != ("arg", 0) else None
+
+        def cld(inst, E, st):
+            if inst.op == "call" and inst.callee in ("lrtr_ipv6_get_bits", "lrtr_ipv4_get_bits"):
+                ok = [vf.expr(fd, a) for a in inst.args[-2:]] == [("arg", 2), ("arg", 3)] and vf.root_of(vf.expr(fd, inst.args[-3])) == ("arg", 1)
+                return ["ask:" + ("v6" if "ipv6" in inst.callee else "v4") + ("" if ok else "?")]
+            if inst.op == "store" and vf.store_field(inst) == "lrtr_ip_addr.ver":
+                return ["=ver:%s" % flow.av_single(E.val(inst["val"]))]
+            return None
+        outs, _f = es.count_effects(fd, pdb, cld, None, values=values)
+        want = {"ask:v6" if ver == v6 else "ask:v4": 1, "ver": str(ver)}
+        ctx.check(bool(outs) and all(o["counts"] == want for o in outs), "C01.R7", "ip_addr_get_bits[family %d]" % ver, "%s:%d" % (fd.relfile, fd.line),
+                  "effects %s (expected %s)" % ([o["counts"] for o in outs][:2], want), key="C01.R7:dispatch:%d" % ver)
+
+
 def check(ctx):
     retsets = flow.return_sets(ctx.pdb)
     r1(ctx)
     r2(ctx)
     r3(ctx)
     r4(ctx, retsets)
+    r7(ctx)
     from specs import C02
     with ctx.shared({"C02.R1": ("C01.R5", "the records validation reads are the records that were added: two records that differ in AS, max-length or "
                                 "source are different records to add and remove (otherwise a removal deletes a sibling and answers change)")}):
@@ -452,7 +558,8 @@ def check(ctx):
         C02.r4(ctx)
     ctx.not_decided("that the trie reaches a correct shape after arbitrary insert/remove orders (parents never longer than children, "
                     "every node on the path spelled by its prefix bits)")
-    ctx.not_decided("the arithmetic inside lrtr_get_bits / lrtr_ipv6_get_bits and lrtr_ip_addr_is_zero / lrtr_ip_addr_equal")
+    ctx.not_decided("bit extraction outside the two argument patterns of R7 (lrtr_ipv6_get_bits loses bits for a range that starts inside one "
+                    "word and ends in a later one; no caller passes such a range); lrtr_ip_addr_is_zero")
 
 
 TRIE = "rtrlib/pfx/trie/trie.c"
@@ -490,4 +597,10 @@ WITNESSES = [
      "old": "\t\t\troot = root->rchild;\n\n\t\t(*lvl)++;", "new": "\t\t\troot = root->rchild;\n\t\tif (root && root->len > mask_len)\n\t\t\tcontinue;\n\t\t(*lvl)++;"},
     {"id": "C01.w15-lookup-stops-at-depth-mask_len", "rule": "C01.R2", "file": TRIE,
      "old": "\twhile (root) {\n\t\tif (root->len <= mask_len && lrtr_ip_addr_equal(", "new": "\twhile (root && *lvl < mask_len) {\n\t\tif (root->len <= mask_len && lrtr_ip_addr_equal("},
+    {"id": "C01.w16-ipv6-get-bits-forgets-the-third-word", "rule": "C01.R7", "file": "rtrlib/lib/ipv6.c",
+     "old": "\t\tassert(bits_left >= q);\n\t\tbits_left -= q;\n\t\tresult.addr[2] = lrtr_get_bits(val->addr[2], fr, q);", "new": "\t\tassert(bits_left >= q);\n\t\tresult.addr[2] = lrtr_get_bits(val->addr[2], fr, q);"},
+    {"id": "C01.w17-mask-one-bit-short", "rule": "C01.R7", "file": "rtrlib/lib/utils.c",
+     "old": "\t\tmask = ~(mask >> number);", "new": "\t\tmask = ~(mask >> (number - 1));"},
+    {"id": "C01.w18-second-word-from-the-first", "rule": "C01.R7", "file": "rtrlib/lib/ipv6.c",
+     "old": "\t\tresult.addr[1] = lrtr_get_bits(val->addr[1], fr, q);", "new": "\t\tresult.addr[1] = lrtr_get_bits(val->addr[0], fr, q);"},
 ]
